@@ -206,3 +206,70 @@ func VerifC07Pipeline() {
 	v.CheckFrozen()
 	v.Reach("per-language part ran on frozen shared schemas")
 }
+
+// ---------------------------------------------------------------- unions of anonymous structs (a depth-2 shape the chains treat specially)
+
+// c06StructUnion: `struct{..} | struct{..}` — two anonymous structs of 1-2 fields over the generator's
+// leaves — optionally with a third `null` or `string` branch; as an object's own type, as a field type or
+// as array elements.
+func c06StructUnion(g *symir.Gen) ast.Type {
+	// lean leaves: what matters is that there are two anonymous structs, with or without a constant
+	// discriminator candidate, required or not
+	saveW, saveN, saveS, saveL, saveR := g.Width, g.Nullable, g.Scalars, g.Leaves, g.RefNames
+	g.Nullable, g.Scalars = false, []string{"string"}
+	g.Leaves &= symir.KScalar | symir.KRef | symir.KConstScalar | symir.KConstRef
+	if len(g.RefNames) > 3 {
+		g.RefNames = []string{g.RefNames[0], g.RefNames[2], g.RefNames[4%len(g.RefNames)]}
+	}
+	g.Width = 2
+	first := g.Struct(0)
+	g.Width = 1
+	second := g.Struct(0)
+	br := ast.Types{first, second}
+	g.Width, g.Nullable, g.Scalars, g.Leaves, g.RefNames = saveW, saveN, saveS, saveL, saveR
+	switch v.Choose(3) {
+	case 1:
+		br = append(br, ast.Null())
+	case 2:
+		br = append(br, ast.String())
+	}
+	u := ast.NewDisjunction(br)
+	switch v.Choose(3) {
+	case 0:
+		return u
+	case 1:
+		f := ast.NewStructField("u", u)
+		f.Required = v.Bool("required")
+		return ast.NewStruct(f)
+	default:
+		return ast.NewArray(u)
+	}
+}
+
+func c06StructUnionRun(lang string) {
+	g := c06Gen(false)
+	g.Names = []string{"Bar", "Baz"}
+	g.Leaves = symir.KScalar | symir.KRef | symir.KConstScalar
+	in := c06InputWith(c06StructUnion(g))
+	v.Observe(in)
+	foo, _ := in.LocateObject("p", "Foo")
+	v.Excuse("union-nested-in-union", symir.HasNestedUnion(foo.Type, false))
+	out, err := chainOf(lang).Process(in)
+	if err != nil {
+		v.Reach("chain returned an error")
+		return
+	}
+	v.Observe(out)
+	nfSchemas(out, nfByLang[lang])
+}
+
+func VerifC06GoStructUnion()     { c06StructUnionRun("go") }
+func VerifC06JavaStructUnion()   { c06StructUnionRun("java") }
+func VerifC06PHPStructUnion()    { c06StructUnionRun("php") }
+func VerifC06PythonStructUnion() { c06StructUnionRun("python") }
+
+func VerifC05ChainGoStructUnion()         { c05ChainFamily("go", 1) }
+func VerifC05ChainJavaStructUnion()       { c05ChainFamily("java", 1) }
+func VerifC05ChainPHPStructUnion()        { c05ChainFamily("php", 1) }
+func VerifC05ChainPythonStructUnion()     { c05ChainFamily("python", 1) }
+func VerifC05ChainTypeScriptStructUnion() { c05ChainFamily("typescript", 1) }
